@@ -1,6 +1,7 @@
 package sim
 
 import (
+	"bytes"
 	"fmt"
 	"sort"
 	"time"
@@ -709,5 +710,18 @@ func SortedPoints(ps []Point) []string {
 		out[i] = fmt.Sprintf("%s/%s@%d=%q", p.ID.Name, p.ID.Type, p.Elapsed, p.Payload)
 	}
 	sort.Strings(out)
+	return out
+}
+
+// UnreadFromClient decodes, in order, what the client wrote on the reliable channel of c's link and the broker never
+// read (the broker stops reading at the Disconnect; a real peer's socket would still receive these bytes).
+func (c *BConn) UnreadFromClient() []message.Message {
+	var out []message.Message
+	enc := protobuf.NewEncoding()
+	for _, b := range c.Link.c2s.q {
+		if _, m, err := enc.DecodeFrom(bytes.NewReader(b)); err == nil {
+			out = append(out, m)
+		}
+	}
 	return out
 }
